@@ -293,6 +293,73 @@ pub fn program_case(t: &Tables, sh: Shape) -> BoxedStrategy<VmCase> {
         .boxed()
 }
 
+/// "Churn" cases: one typed stack with a small maximum is filled, emptied (Flush / Pop / a consumer) and
+/// refilled up to and beyond its maximum, interleaved with instructions that push onto it from another
+/// stack.  Whatever a stack or the state remembers about its own fill level has to survive that.
+pub fn churn_case(t: &Tables) -> BoxedStrategy<VmCase> {
+    use crate::model::vm::{BoolOp, Common, FloatOp, IntOp};
+    let ops = t.all_ops();
+    (0u8..3, 0usize..4, 0usize..4, prop::collection::vec((0u8..10, any::<i8>()), 4..40), prop::collection::vec(leaf(ops).prop_map(Prog::I), 0..4), any::<u64>())
+        .prop_map(|(kind, k0, slack, script, tail, salt)| {
+            let lit = |v: i8| match kind {
+                0 => Ins::PushInt(i64::from(v)),
+                1 => Ins::PushFloat(F::of(f64::from(v) / 4.0)),
+                _ => Ins::PushBool(v % 2 == 0),
+            };
+            let common = |c: Common| match kind {
+                0 => Ins::Int(IntOp::C(c)),
+                1 => Ins::Flt(FloatOp::C(c)),
+                _ => Ins::Bool(BoolOp::C(c)),
+            };
+            // instructions that push onto the stack under churn from another stack, or consume from it
+            let cross = |v: i8| match (kind, v.rem_euclid(4)) {
+                (0, 0) => Ins::Int(IntOp::FromBoolean),
+                (0, 1) => Ins::Int(IntOp::FromFloatApprox),
+                (0, 2) => Ins::Int(IntOp::C(Common::StackDepth)),
+                (0, _) => Ins::Int(IntOp::Add),
+                (1, 0 | 1) => Ins::Flt(FloatOp::FromIntApprox),
+                (1, 2) => Ins::Flt(FloatOp::Add),
+                (1, _) => Ins::Flt(FloatOp::Equal),
+                (_, 0) => Ins::Bool(BoolOp::FromInt),
+                (_, 1) => Ins::Int(IntOp::Equal),
+                (_, 2) => Ins::Bool(BoolOp::C(Common::IsEmpty)),
+                (_, _) => Ins::Flt(FloatOp::LessThan),
+            };
+            let mut exec: Vec<Prog> = script
+                .iter()
+                .map(|(what, v)| {
+                    Prog::I(match what {
+                        0..=3 => lit(*v),
+                        4 => common(Common::Flush),
+                        5 => common(Common::Pop),
+                        6 => common(Common::Dup),
+                        7 => cross(*v),
+                        8 => common(Common::Swap),
+                        _ => cross(v.wrapping_add(1)),
+                    })
+                })
+                .collect();
+            exec.extend(tail);
+            let init = |n: usize| (0..n as i64).collect::<Vec<i64>>();
+            let mut c = VmCase {
+                instr: None,
+                max_exec: exec.len() + 4,
+                exec,
+                int: init(if kind == 0 { k0 } else { 3 }),
+                float: init(if kind == 1 { k0 } else { 3 }).into_iter().map(|v| F::of(v as f64)).collect(),
+                boolean: init(if kind == 2 { k0 } else { 3 }).into_iter().map(|v| v % 2 == 0).collect(),
+                max_int: if kind == 0 { k0 + slack } else { 30 },
+                max_float: if kind == 1 { k0 + slack } else { 30 },
+                max_bool: if kind == 2 { k0 + slack } else { 30 },
+                inputs: vec![],
+                steps: 10 + (salt % 60) as usize,
+            };
+            c.normalise();
+            c
+        })
+        .boxed()
+}
+
 /// Single-instruction cases with boundary-biased stacks.  `which` picks the
 /// instruction (index into all ops + literal/print forms), sizes are drawn from
 /// {0,1,2,3} and the slack from {0,1,2}, so that for every instruction each of
